@@ -259,6 +259,9 @@ func init() {
 					}
 					return Viol("stream-rerun-no-termination", sig, "second run of a completed streaming workflow does not terminate normally: %s", endDesc(inc2))
 				}
+				if left := Leftovers(inc2.Sim.FS.Root); len(left) > 0 {
+					return Viol("fifo-left", "second-run", "the second run of the completed streaming workflow returned but left behind: %v", left)
+				}
 				for _, t := range ex.Tasks {
 					if t.Proc != "cons" && t.Proc != "post" && t.Proc != "cons2" {
 						continue
